@@ -97,6 +97,10 @@ def handler_denies(h, prog=None, f=None, region=None):
             if n.value is None or (isinstance(n.value, ast.Constant)
                                    and not n.value.value):
                 continue
+            if isinstance(n.value, (ast.Tuple, ast.List, ast.Set)) and \
+                    not n.value.elts or (isinstance(n.value, ast.Dict)
+                                         and not n.value.keys):
+                continue        # an empty display is falsy as well
             if prog is not None and isinstance(n.value, ast.Call):
                 g = prog.callee_of(f, n.value)
                 if g is not None and region is not None and \
